@@ -149,7 +149,11 @@ def run_case(ctx, case, ir, lines):
     if p_bad is None:
         sc = max(np.abs(cA).max(), 1e-300)
         for other in (0., -0.37 * aeromu, 1e-9 * aeromu, 2.5 * aeromu):
-            pc.quiet(p.calc_cA, other, silent=True)
+            try:
+                pc.quiet(p.calc_cA, other, silent=True)
+            except Exception as e:                           # noqa
+                p_bad = 'calc_cA(%r) raised %s: %s (calc_cA(%r) on the same panel succeeds)' % (other, type(e).__name__, str(e)[:120], aeromu)
+                break
             d3 = np.abs(p.cA.toarray() - cA * (other / aeromu)).max() / sc
             if d3 > 1e-8 * max(abs(other / aeromu), 1.):
                 p_bad = ('calc_cA(%r) is not %r/%r times calc_cA(%r) (deviation %.3e of the matrix scale; panel attribute aeromu = %r): the damping matrix '
@@ -287,12 +291,52 @@ def correspondence(ctx):
     ctx.cov['translated_kernels'] = ['%s.%s' % (m, k) for m in ('Plate', 'PlateW', 'CPanel') for k in KERNELS]
 
 
+def source_arm(ctx, ir, reason):
+    """model arm: the aerodynamic kernels AS WRITTEN IN THE SOURCE (translated, interpreted) against the bilinear form of the pressure law
+    on the triangle the kernels fill; panels whose edge flags differ between the x and the y edges, both flow directions"""
+    rng = ctx.rng
+    for t in range(ctx.scale(36, 120)):
+        case = gen(ctx, rng)
+        case['m'], case['n'] = 5, 5                    # beyond the four edge functions: the flags cannot switch the whole field off
+        case['flow'] = 'xy'[t % 2]
+        for e in ('1t', '2t'):
+            case['flags']['w' + e + case['flow']] = 0.
+        for k in case['flags']:
+            if k[0] == 'w' and k[1:3] in ('1r', '2r'):
+                case['flags'][k] = float((t // 2 + (k[3] == 'y') + (k[1] == '2')) % 2)       # rotations restrained on some edges only
+        kernels, schemas, consts = ir[case['lean_model']]
+        p = pc.make_panel(case)
+        pc.quiet(p.calc_k0, silent=True)
+        size = p.get_size()
+        beta, gamma, aeromu = 2.5, (0.7 if (case['lean_model'] == 'CPanel' and case['flow'] == 'x') else 0.), 0.9
+        for kn, params, kind, co in (('fkA' + case['flow'], dict(beta=beta, gamma=gamma), 'kA', (beta, gamma)),
+                                     ('fcA', dict(aeromu=aeromu), 'cA', (aeromu, 0.))):
+            ctx.evaluations += 1
+            try:
+                mine = panel_v.interp_kernel(kernels[kn], consts, p, params, size, 0, 0)
+            except Exception as e:                                   # noqa
+                continue
+            want = bilinear_oracle(p, case, co[0], co[1], kind)
+            up = np.triu(np.ones_like(want))
+            d = np.abs((mine - want) * up).max() / max(np.abs(want).max(), 1e-300)
+            if d > 1e-8:
+                i, j = np.unravel_index(np.abs((mine - want) * up).argmax(), want.shape)
+                ctx.violation('C19 fails on the source as written: %s.%s interpreted on this panel gives %.6e at [%d,%d], the bilinear form of the '
+                              'piston-theory pressure law %.6e (flow along %s; rel %.3e); the running binary is stale w.r.t. this source if the '
+                              'implementation arm stays quiet' % (case['model'], kn, mine[i, j], i, j, want[i, j], case['flow'], d),
+                              dict(case=case, kernel=kn, source_arm=True, broken=reason))
+                return True
+    return False
+
+
 def search(ctx, reason):
     try:
         ir = pc.translated(ctx)
     except Exception as e:
         ctx.log('translator unusable: %s' % e)
         return False
+    if source_arm(ctx, ir, reason):
+        return True
     for t in range(ctx.scale(30, 200)):
         case = gen(ctx, ctx.rng)
         ctx.evaluations += 1
